@@ -55,7 +55,7 @@ def expected(f):
             ev.append('E%d:%s:%d:%d:%d:%d' % (int.from_bytes(r[0:8], 'little'), r[8:40].hex(), int.from_bytes(r[40:48], 'little'),
                                               dbg, dbg - dbg % 4, dbg % 4))
     tp, pn = {}, {}
-    for tid, pid, nh in f['threads']:
+    for tid, pid, nh in (t[:3] for t in f["threads"]):
         tp[tid] = pid
         pn[pid] = bytes.fromhex(nh).decode('utf-8')
     tm = ct.show_tables(tp, pn)
@@ -262,6 +262,16 @@ def correspondence(rep, rng, tier):
                      'complete foreign tags, thread maps with duplicates and trailing bytes, block subsets/orders/multiplicities '
                      'of all 7 known tags + unknown tags with real binary plists, last block padded or not, log records '
                      'with/without p and pid, tid 0; full answer compared; oracle from the description alone')
+    junk = []
+    for _ in range(100 if quick else 2500):
+        f = ct.gen_v3(rng, small=rng.random() < 0.6)
+        if f['threads']:
+            f['threads'] = ct.add_junk(rng, f['threads'])
+            junk.append(mk_case(rng, f))
+    run_section(rep, 'v3-junk', junk, line_v3, impl_v3, oracle_fn=oracle_v3,
+                nontrivial_fn=lambda c, got: any(len(t) > 3 for t in c['file']['threads']),
+                rule='generated V3Files whose 20-byte command fields hold bytes BEHIND the name\'s terminator (reused kernel '
+                     'slots): the name is the C string up to the first NUL; same comparison and oracle as section v3')
     mal = malformed(rng, 300 if quick else 5000)
     run_section(rep, 'v3-malformed', mal, line_v3, impl_v3,
                 kind_fn=lambda c, got: 'k%d-%s' % (c['kind'], got.split(' ', 1)[0]),
@@ -299,7 +309,7 @@ def replay(path):
         r = json.load(fd)
     rp = r['replay']
     sec, case = rp['section'], rp['case']
-    fns = {'v3': (line_v3, impl_v3, oracle_v3), 'v3-malformed': (line_v3, impl_v3, None),
+    fns = {'v3': (line_v3, impl_v3, oracle_v3), 'v3-junk': (line_v3, impl_v3, oracle_v3), 'v3-malformed': (line_v3, impl_v3, None),
            'v3-seq': (line_seq, impl_seq, oracle_seq), 'v3-api': (line_api, impl_api, oracle_api)}
     if sec not in fns:
         return 0
